@@ -14,43 +14,149 @@ variable {K : Type} [Field K] [LinearOrder K] [IsStrictOrderedRing K]
 /-- utils.quadraticRoots -/
 
 @[gen_def] def quadraticRoots (sqrt : K → K) (a b c : K) : List K :=
-  if a ≠ (0 : K) then
-    if ((b * b) - (((4 : K) * a) * c)) > (0 : K) then
-      if (((-b) / ((2 : K) * a)) - ((sqrt ((b * b) - (((4 : K) * a) * c))) / ((2 : K) * a))) ≥ (0 : K) then
-        if (((-b) / ((2 : K) * a)) - ((sqrt ((b * b) - (((4 : K) * a) * c))) / ((2 : K) * a))) ≤ (1 : K) then
-          if (((-b) / ((2 : K) * a)) + ((sqrt ((b * b) - (((4 : K) * a) * c))) / ((2 : K) * a))) ≥ (0 : K) then
-            if (((-b) / ((2 : K) * a)) + ((sqrt ((b * b) - (((4 : K) * a) * c))) / ((2 : K) * a))) ≤ (1 : K) then
-              let v0 := ((2 : K) * a)
-              let v1 := ((sqrt ((b * b) - (((4 : K) * a) * c))) / v0)
-              [(((-b) / v0) - v1), (((-b) / v0) + v1)]
-            else
-              let v0 := ((2 : K) * a)
-              [(((-b) / v0) - ((sqrt ((b * b) - (((4 : K) * a) * c))) / v0))]
-          else
-            let v0 := ((2 : K) * a)
-            [(((-b) / v0) - ((sqrt ((b * b) - (((4 : K) * a) * c))) / v0))]
+  if a = (0 : K) then
+    if b ≠ (0 : K) then
+      if ((-c) / b) ≥ (0 : K) then
+        if ((-c) / b) ≤ (1 : K) then
+          [((-c) / b)]
         else
-          if (((-b) / ((2 : K) * a)) + ((sqrt ((b * b) - (((4 : K) * a) * c))) / ((2 : K) * a))) ≥ (0 : K) then
-            if (((-b) / ((2 : K) * a)) + ((sqrt ((b * b) - (((4 : K) * a) * c))) / ((2 : K) * a))) ≤ (1 : K) then
-              let v0 := ((2 : K) * a)
-              [(((-b) / v0) + ((sqrt ((b * b) - (((4 : K) * a) * c))) / v0))]
+          []
+      else
+        []
+    else
+      []
+  else
+    if ((b * b) - (((4 : K) * a) * c)) > (0 : K) then
+      if b ≥ (0 : K) then
+        if ((-(b + (sqrt ((b * b) - (((4 : K) * a) * c))))) / (2 : K)) ≠ (0 : K) then
+          if (c / ((-(b + (sqrt ((b * b) - (((4 : K) * a) * c))))) / (2 : K))) < (((-(b + (sqrt ((b * b) - (((4 : K) * a) * c))))) / (2 : K)) / a) then
+            if (c / ((-(b + (sqrt ((b * b) - (((4 : K) * a) * c))))) / (2 : K))) ≥ (0 : K) then
+              if (c / ((-(b + (sqrt ((b * b) - (((4 : K) * a) * c))))) / (2 : K))) ≤ (1 : K) then
+                if (((-(b + (sqrt ((b * b) - (((4 : K) * a) * c))))) / (2 : K)) / a) ≥ (0 : K) then
+                  if (((-(b + (sqrt ((b * b) - (((4 : K) * a) * c))))) / (2 : K)) / a) ≤ (1 : K) then
+                    let v0 := ((-(b + (sqrt ((b * b) - (((4 : K) * a) * c))))) / (2 : K))
+                    [(c / v0), (v0 / a)]
+                  else
+                    [(c / ((-(b + (sqrt ((b * b) - (((4 : K) * a) * c))))) / (2 : K)))]
+                else
+                  [(c / ((-(b + (sqrt ((b * b) - (((4 : K) * a) * c))))) / (2 : K)))]
+              else
+                if (((-(b + (sqrt ((b * b) - (((4 : K) * a) * c))))) / (2 : K)) / a) ≥ (0 : K) then
+                  if (((-(b + (sqrt ((b * b) - (((4 : K) * a) * c))))) / (2 : K)) / a) ≤ (1 : K) then
+                    [(((-(b + (sqrt ((b * b) - (((4 : K) * a) * c))))) / (2 : K)) / a)]
+                  else
+                    []
+                else
+                  []
+            else
+              if (((-(b + (sqrt ((b * b) - (((4 : K) * a) * c))))) / (2 : K)) / a) ≥ (0 : K) then
+                if (((-(b + (sqrt ((b * b) - (((4 : K) * a) * c))))) / (2 : K)) / a) ≤ (1 : K) then
+                  [(((-(b + (sqrt ((b * b) - (((4 : K) * a) * c))))) / (2 : K)) / a)]
+                else
+                  []
+              else
+                []
+          else
+            if (((-(b + (sqrt ((b * b) - (((4 : K) * a) * c))))) / (2 : K)) / a) ≥ (0 : K) then
+              if (((-(b + (sqrt ((b * b) - (((4 : K) * a) * c))))) / (2 : K)) / a) ≤ (1 : K) then
+                if (c / ((-(b + (sqrt ((b * b) - (((4 : K) * a) * c))))) / (2 : K))) ≥ (0 : K) then
+                  if (c / ((-(b + (sqrt ((b * b) - (((4 : K) * a) * c))))) / (2 : K))) ≤ (1 : K) then
+                    let v0 := ((-(b + (sqrt ((b * b) - (((4 : K) * a) * c))))) / (2 : K))
+                    [(v0 / a), (c / v0)]
+                  else
+                    [(((-(b + (sqrt ((b * b) - (((4 : K) * a) * c))))) / (2 : K)) / a)]
+                else
+                  [(((-(b + (sqrt ((b * b) - (((4 : K) * a) * c))))) / (2 : K)) / a)]
+              else
+                if (c / ((-(b + (sqrt ((b * b) - (((4 : K) * a) * c))))) / (2 : K))) ≥ (0 : K) then
+                  if (c / ((-(b + (sqrt ((b * b) - (((4 : K) * a) * c))))) / (2 : K))) ≤ (1 : K) then
+                    [(c / ((-(b + (sqrt ((b * b) - (((4 : K) * a) * c))))) / (2 : K)))]
+                  else
+                    []
+                else
+                  []
+            else
+              if (c / ((-(b + (sqrt ((b * b) - (((4 : K) * a) * c))))) / (2 : K))) ≥ (0 : K) then
+                if (c / ((-(b + (sqrt ((b * b) - (((4 : K) * a) * c))))) / (2 : K))) ≤ (1 : K) then
+                  [(c / ((-(b + (sqrt ((b * b) - (((4 : K) * a) * c))))) / (2 : K)))]
+                else
+                  []
+              else
+                []
+        else
+          if (((-(b + (sqrt ((b * b) - (((4 : K) * a) * c))))) / (2 : K)) / a) ≥ (0 : K) then
+            if (((-(b + (sqrt ((b * b) - (((4 : K) * a) * c))))) / (2 : K)) / a) ≤ (1 : K) then
+              [(((-(b + (sqrt ((b * b) - (((4 : K) * a) * c))))) / (2 : K)) / a)]
             else
               []
           else
             []
       else
-        if (((-b) / ((2 : K) * a)) + ((sqrt ((b * b) - (((4 : K) * a) * c))) / ((2 : K) * a))) ≥ (0 : K) then
-          if (((-b) / ((2 : K) * a)) + ((sqrt ((b * b) - (((4 : K) * a) * c))) / ((2 : K) * a))) ≤ (1 : K) then
-            let v0 := ((2 : K) * a)
-            [(((-b) / v0) + ((sqrt ((b * b) - (((4 : K) * a) * c))) / v0))]
+        if ((-(b - (sqrt ((b * b) - (((4 : K) * a) * c))))) / (2 : K)) ≠ (0 : K) then
+          if (c / ((-(b - (sqrt ((b * b) - (((4 : K) * a) * c))))) / (2 : K))) < (((-(b - (sqrt ((b * b) - (((4 : K) * a) * c))))) / (2 : K)) / a) then
+            if (c / ((-(b - (sqrt ((b * b) - (((4 : K) * a) * c))))) / (2 : K))) ≥ (0 : K) then
+              if (c / ((-(b - (sqrt ((b * b) - (((4 : K) * a) * c))))) / (2 : K))) ≤ (1 : K) then
+                if (((-(b - (sqrt ((b * b) - (((4 : K) * a) * c))))) / (2 : K)) / a) ≥ (0 : K) then
+                  if (((-(b - (sqrt ((b * b) - (((4 : K) * a) * c))))) / (2 : K)) / a) ≤ (1 : K) then
+                    let v0 := ((-(b - (sqrt ((b * b) - (((4 : K) * a) * c))))) / (2 : K))
+                    [(c / v0), (v0 / a)]
+                  else
+                    [(c / ((-(b - (sqrt ((b * b) - (((4 : K) * a) * c))))) / (2 : K)))]
+                else
+                  [(c / ((-(b - (sqrt ((b * b) - (((4 : K) * a) * c))))) / (2 : K)))]
+              else
+                if (((-(b - (sqrt ((b * b) - (((4 : K) * a) * c))))) / (2 : K)) / a) ≥ (0 : K) then
+                  if (((-(b - (sqrt ((b * b) - (((4 : K) * a) * c))))) / (2 : K)) / a) ≤ (1 : K) then
+                    [(((-(b - (sqrt ((b * b) - (((4 : K) * a) * c))))) / (2 : K)) / a)]
+                  else
+                    []
+                else
+                  []
+            else
+              if (((-(b - (sqrt ((b * b) - (((4 : K) * a) * c))))) / (2 : K)) / a) ≥ (0 : K) then
+                if (((-(b - (sqrt ((b * b) - (((4 : K) * a) * c))))) / (2 : K)) / a) ≤ (1 : K) then
+                  [(((-(b - (sqrt ((b * b) - (((4 : K) * a) * c))))) / (2 : K)) / a)]
+                else
+                  []
+              else
+                []
+          else
+            if (((-(b - (sqrt ((b * b) - (((4 : K) * a) * c))))) / (2 : K)) / a) ≥ (0 : K) then
+              if (((-(b - (sqrt ((b * b) - (((4 : K) * a) * c))))) / (2 : K)) / a) ≤ (1 : K) then
+                if (c / ((-(b - (sqrt ((b * b) - (((4 : K) * a) * c))))) / (2 : K))) ≥ (0 : K) then
+                  if (c / ((-(b - (sqrt ((b * b) - (((4 : K) * a) * c))))) / (2 : K))) ≤ (1 : K) then
+                    let v0 := ((-(b - (sqrt ((b * b) - (((4 : K) * a) * c))))) / (2 : K))
+                    [(v0 / a), (c / v0)]
+                  else
+                    [(((-(b - (sqrt ((b * b) - (((4 : K) * a) * c))))) / (2 : K)) / a)]
+                else
+                  [(((-(b - (sqrt ((b * b) - (((4 : K) * a) * c))))) / (2 : K)) / a)]
+              else
+                if (c / ((-(b - (sqrt ((b * b) - (((4 : K) * a) * c))))) / (2 : K))) ≥ (0 : K) then
+                  if (c / ((-(b - (sqrt ((b * b) - (((4 : K) * a) * c))))) / (2 : K))) ≤ (1 : K) then
+                    [(c / ((-(b - (sqrt ((b * b) - (((4 : K) * a) * c))))) / (2 : K)))]
+                  else
+                    []
+                else
+                  []
+            else
+              if (c / ((-(b - (sqrt ((b * b) - (((4 : K) * a) * c))))) / (2 : K))) ≥ (0 : K) then
+                if (c / ((-(b - (sqrt ((b * b) - (((4 : K) * a) * c))))) / (2 : K))) ≤ (1 : K) then
+                  [(c / ((-(b - (sqrt ((b * b) - (((4 : K) * a) * c))))) / (2 : K)))]
+                else
+                  []
+              else
+                []
+        else
+          if (((-(b - (sqrt ((b * b) - (((4 : K) * a) * c))))) / (2 : K)) / a) ≥ (0 : K) then
+            if (((-(b - (sqrt ((b * b) - (((4 : K) * a) * c))))) / (2 : K)) / a) ≤ (1 : K) then
+              [(((-(b - (sqrt ((b * b) - (((4 : K) * a) * c))))) / (2 : K)) / a)]
+            else
+              []
           else
             []
-        else
-          []
     else
       []
-  else
-    []
 
 
 /-- arguments CubicBezier._findDRoots passes to quadraticRoots (x then y) -/
